@@ -321,9 +321,9 @@ func (p *Pool) Put(x any) {
 	// would hand the same object to two holders, so the execution is marked; the explorer reports
 	// it (a cooperative schedule cannot interleave inside code without synchronisation, where the
 	// two holders would collide, so the invariant is checked here instead).
-	if rv := reflect.ValueOf(x); rv.Kind() == reflect.Pointer {
+	if id, ok := poolIdentity(x); ok {
 		for _, it := range p.items {
-			if iv := reflect.ValueOf(it); iv.Kind() == reflect.Pointer && iv.Pointer() == rv.Pointer() {
+			if iid, ok := poolIdentity(it); ok && iid == id {
 				sched.Logf("POOL-DOUBLE-PUT %T is put back while it is already in the pool", x)
 			}
 		}
@@ -332,6 +332,25 @@ func (p *Pool) Put(x any) {
 	if PoolIsPoint {
 		sched.Point("Pool.Put", nil)
 	}
+}
+
+// poolIdentity: what makes two pooled values "the same object" - the address for pointers, the
+// backing array for slices and pointers to slices with capacity (a pooled []T or *[]T put back
+// twice hands one array to two holders just as a pointer does).
+func poolIdentity(x any) (uintptr, bool) {
+	rv := reflect.ValueOf(x)
+	switch rv.Kind() {
+	case reflect.Pointer:
+		if !rv.IsNil() && rv.Elem().Kind() == reflect.Slice && rv.Elem().Cap() > 0 {
+			return rv.Elem().Pointer(), true // *[]T: the array behind it, whichever header points at it
+		}
+		return rv.Pointer(), true
+	case reflect.Slice:
+		if rv.Cap() > 0 {
+			return rv.Pointer(), true
+		}
+	}
+	return 0, false
 }
 
 // ---- Map ---------------------------------------------------------------------------------
